@@ -184,8 +184,9 @@ func modelCut(f *Frame, st *State, cc *ssa.CallCommon, args []Val, rt types.Type
 		found, p, p, sep, s, match(p), p, match("q"), s))
 	e.assume("true", fmt.Sprintf("(=> (not %s) (forall ((q Int)) (! (=> (and (<= 0 q) (<= (+ q (slen %s)) (slen %s))) (not %s)) :pattern ((sbyte %s q)))))",
 		found, sep, s, match("q"), s))
-	before := e.define("cut.before", "Str", sIte(found, fmt.Sprintf("(ssub %s 0 %s)", s, p), s))
-	after := e.define("cut.after", "Str", sIte(found, fmt.Sprintf("(ssub %s (+ %s (slen %s)) (slen %s))", s, p, sep, s), "str.empty"))
+	// named constants, not macros: a macro containing ite is not allowed inside quantifier patterns (z3 drops the pattern)
+	before := e.nameConst("cut.before", "Str", sIte(found, fmt.Sprintf("(ssub %s 0 %s)", s, p), s))
+	after := e.nameConst("cut.after", "Str", sIte(found, fmt.Sprintf("(ssub %s (+ %s (slen %s)) (slen %s))", s, p, sep, s), "str.empty"))
 	e.lastCut = p
 	tup := rt.(*types.Tuple)
 	return Val{T: rt, Tuple: []Val{{T: tup.At(0).Type(), S: before}, {T: tup.At(1).Type(), S: after}, {T: tup.At(2).Type(), S: found}}}
